@@ -617,6 +617,32 @@ class LAX:
     return out.transpose(inv)
 
   @staticmethod
+  def dynamic_update_slice(operand, update, start_indices):
+    """start indices must be concrete here; out-of-range starts are clamped (lax)"""
+    operand, update = _a(operand), _a(update)
+    starts = []
+    for d, ix in enumerate(start_indices):
+      if isinstance(ix, A):
+        ix = ix.data[0]
+      if isinstance(ix, S):
+        v = z3.simplify(ix.t)
+        if not (z3.is_int_value(v) or z3.is_rational_value(v)):
+          raise NotImplementedError('symbolic start index')
+        ix = v.as_long() if z3.is_int_value(v) else int(v.as_fraction())
+      ix = int(ix)
+      starts.append(max(0, min(ix, operand.shape[d] - update.shape[d])))
+    out = list(operand.data)
+    strides = []
+    acc = 1
+    for sdim in reversed(operand.shape):
+      strides.insert(0, acc)
+      acc *= sdim
+    for idx in itertools.product(*[range(sd) for sd in update.shape]):
+      k = sum((i + st) * stv for i, st, stv in zip(idx, starts, strides))
+      out[k] = update.at(idx)
+    return A(out, operand.shape)
+
+  @staticmethod
   def conv_transpose(lhs, rhs, strides, padding, rhs_dilation=None,
                      dimension_numbers=None, transpose_kernel=False, precision=None,
                      preferred_element_type=None, use_consistent_padding=False):
